@@ -17,6 +17,7 @@ mod net;
 mod pt;
 mod rng;
 mod ser;
+mod thr;
 mod trk;
 mod trn;
 mod val;
@@ -62,12 +63,17 @@ fn install_panic_hook() {
 
 /// Execute one case on a fresh thread (own hash seed), capturing panics. None = hang.
 pub fn run_case(case: &Case, timeout: Duration) -> Option<Ctx> {
+    run_case_seeded(case, case.hash_seed(), timeout)
+}
+
+/// same, with explicit RandomState keys for the run's thread (seam N2)
+pub fn run_case_seeded(case: &Case, hash_seed: u64, timeout: Duration) -> Option<Ctx> {
     let (tx, rx) = std::sync::mpsc::channel();
     let case2 = case.clone();
     let h = std::thread::Builder::new()
         .stack_size(32 << 20)
         .spawn(move || {
-            hashseed::set_thread_seed(case2.hash_seed());
+            hashseed::set_thread_seed(hash_seed);
             let mut ctx = Ctx::default();
             let r = catch_unwind(AssertUnwindSafe(|| cases::execute(&case2, &mut ctx)));
             if r.is_err() {
